@@ -72,8 +72,14 @@ func ruleC14NoAliasOut(r *Run, p *Program, rule string) {
 		}
 	}
 	r.universe(rule+":api-results", nsink, 3)
-	// no struct field ever holds Slice memory
-	fl := t.FieldList()
+	// no long-lived struct field ever holds Slice memory
+	ll := longLivedTypes(p)
+	var fl []string
+	for _, f := range t.FieldList() {
+		if ll[fieldOwner(f)] {
+			fl = append(fl, f)
+		}
+	}
 	if len(fl) == 0 {
 		r.ok(rule, "fields", "", fmt.Sprintf("no struct field of the package is ever assigned memory derived from File.Slice (%d tainted SSA values, all local)", len(t.Vals)), true)
 	}
@@ -103,9 +109,15 @@ func ruleC14NoRetainIn(r *Run, p *Program, rule string) {
 		t.Vals[pa] = true
 	}
 	t.run()
-	fl := t.FieldList()
+	ll := longLivedTypes(p)
+	var fl []string
+	for _, f := range t.FieldList() {
+		if ll[fieldOwner(f)] {
+			fl = append(fl, f)
+		}
+	}
 	if len(fl) == 0 {
-		r.ok(rule, "fields", "", fmt.Sprintf("no struct field is ever assigned a value derived from a caller's key/value/buffer slice (%d byte-slice parameters of %d exported functions)", len(params), len(api)), true)
+		r.ok(rule, "fields", "", fmt.Sprintf("no field of a long-lived struct (reachable from DB, ItemIterator or a package variable: %d types) is ever assigned a value derived from a caller's key/value/buffer slice (%d byte-slice parameters of %d exported functions)", len(ll), len(params), len(api)), true)
 	}
 	for _, f := range fl {
 		at := t.FieldAt[f]
@@ -160,7 +172,7 @@ func ruleC14CopyInsideLock(r *Run, p *Program, rule string) {
 	t := NewTaint(p, []string{"pogreb."}, sliceSource)
 	n := 0
 	seen := map[string]bool{}
-	for _, e := range lockEntries {
+	for _, e := range resolveLockEntries(p) {
 		f := p.Fn(e.Key)
 		if f == nil {
 			continue
@@ -266,6 +278,30 @@ func ruleC14Fresh(r *Run, p *Program, rule string) {
 					}
 				}
 				return true, ""
+			}
+			// a call through a function value: every function the value can be (VTA call graph) must return fresh buffers
+			if !x.Call.IsInvoke() && x.Call.StaticCallee() == nil {
+				if n := p.VTA().Nodes[x.Parent()]; n != nil {
+					found := false
+					for _, e := range n.Out {
+						if e.Site != ssa.CallInstruction(x) || e.Callee.Func == nil || !inModule(e.Callee.Func) {
+							continue
+						}
+						found = true
+						for _, ret := range returnsOf(e.Callee.Func) {
+							for i := range ret.Results {
+								if _, isSl := ret.Results[i].Type().Underlying().(*types.Slice); isSl {
+									if ok, why := fresh(retOperand(ret, i), apiFn, seen, d+1); !ok {
+										return false, why
+									}
+								}
+							}
+						}
+					}
+					if found {
+						return true, ""
+					}
+				}
 			}
 			return false, "result of " + callString(&x.Call)
 		case *ssa.Extract:
@@ -449,4 +485,62 @@ func cellStores(a *ssa.Alloc) []ssa.Value {
 		}
 	}
 	return out
+}
+
+// longLivedTypes: struct types of package pogreb that can be reached from a DB, an ItemIterator or a package-level variable
+// (through fields, pointers, slices, arrays, maps). Values of other struct types live only for the duration of a call.
+func longLivedTypes(p *Program) map[string]bool {
+	out := map[string]bool{}
+	var visit func(t types.Type, d int)
+	visit = func(t types.Type, d int) {
+		if d > 12 {
+			return
+		}
+		switch u := t.(type) {
+		case *types.Pointer:
+			visit(u.Elem(), d+1)
+		case *types.Slice:
+			visit(u.Elem(), d+1)
+		case *types.Array:
+			visit(u.Elem(), d+1)
+		case *types.Map:
+			visit(u.Key(), d+1)
+			visit(u.Elem(), d+1)
+		case *types.Named:
+			if u.Obj().Pkg() == nil || u.Obj().Pkg().Path() != modPath {
+				return
+			}
+			name := "pogreb." + u.Obj().Name()
+			if out[name] {
+				return
+			}
+			st, ok := u.Underlying().(*types.Struct)
+			if !ok {
+				return
+			}
+			out[name] = true
+			for i := 0; i < st.NumFields(); i++ {
+				visit(st.Field(i).Type(), d+1)
+			}
+		}
+	}
+	for _, root := range []string{"DB", "ItemIterator"} {
+		if n := p.NamedType(p.Main, root); n != nil {
+			visit(n, 0)
+		}
+	}
+	sc := p.Main.Types.Scope()
+	for _, nm := range sc.Names() {
+		if v, ok := sc.Lookup(nm).(*types.Var); ok {
+			visit(v.Type(), 0)
+		}
+	}
+	return out
+}
+
+func fieldOwner(qualField string) string {
+	if i := strings.LastIndex(qualField, "."); i >= 0 {
+		return qualField[:i]
+	}
+	return qualField
 }
